@@ -156,8 +156,8 @@ class FitHistMachine(Machine):
                 if op[1]["ref"] == "model":
                     if not allow_model_rel:
                         op[1]["rel"] = False
-                    if t == "hist":
-                        op[1]["rel"] = False
+                    # (histogram fits: kafe2 refers model-relative sources to the unscaled bin integrals - open finding F-C01-1, decided by the
+                    # C01 check; the twin of this check has the same scaling, so the history dimension can be explored all the same)
                     has_model_src = True
                 ops.append(op)
                 nsrc += 1
@@ -202,7 +202,7 @@ class FitHistMachine(Machine):
                     ops.append(["read", rng.choice(["parameter_cov_mat", "parameter_cor_mat", "result_dict", "parameter_errors"]), 0.0])
                     ops.append(["read", "cost_function_value", 0.0])
             elif k == "set_data" and not has_model_src:
-                ops.append(["set_data", self._new_data(rng, spec)])
+                ops.append(["set_data", fitlib.gen_new_data(rng, spec)])
                 nsrc_reset = True  # sources of the old container are gone; indices restart (executor mirrors this)
                 nsrc = len(ops[-1][1].get("sources") or [])
                 if nsrc:
@@ -236,40 +236,6 @@ class FitHistMachine(Machine):
         ops.append(["read", "cost_function_value", 0.0])
         del obs_pool
         return {"machine": self.name, "seed": seed, "knobs": {"order": sw.choice(["shuffle", "shuffle", "insertion", "reverse"])}, "ops": ops}
-
-    def _new_data(self, rng, spec):
-        t = spec["type"]
-        if t == "xy":
-            poisson = spec["cost"] in fitlib.POISSON_LIKE
-            xs = list(spec["x"])
-            if rng.random() < 0.7:  # different support points (x-dependent nodes must follow)
-                xs = sorted(set([float(v + rng.choice([0.0, 1.0, 2.0])) if poisson else round(v + rng.choice([0.0, 0.25, -0.25, 0.4]), 3) for v in xs]))
-                while len(xs) < len(spec["x"]):
-                    xs.append(xs[-1] + 1.0)
-            out = {"x": xs, "y": [round(v + rng.choice([-0.2, 0.1, 0.3]) if not spec["cost"] in fitlib.POISSON_LIKE else v + rng.choice([0, 1, 2]), 3) for v in spec["y"]]}
-            return self._with_sources(rng, spec, out)
-        if t == "indexed":
-            out = {"d": [round(v + rng.choice([-0.2, 0.1, 0.3]) if not spec["cost"] in fitlib.POISSON_LIKE else v + rng.choice([0, 1, 2]), 3) for v in spec["d"]]}
-            return self._with_sources(rng, spec, out)
-        if t == "hist":
-            return {"entries": [round(v + rng.choice([-0.1, 0.0, 0.1]), 4) for v in spec["entries"]][: max(5, len(spec["entries"]) - 3)]}
-        return {"d": [round(v + rng.choice([-0.1, 0.0, 0.1]), 4) for v in spec["d"]]}
-
-    def _with_sources(self, rng, spec, out):
-        """The replacement may be a container that brings its own (possibly correlated) uncertainty sources."""
-        if spec["cost"] in fitlib.POISSON_LIKE or spec["cost"] == "chi2_no_errors" or rng.random() < 0.5:
-            return out
-        srcs = []
-        base = fitlib.gen_source(rng, spec, 0, allow_model=False, force={"kind": "simple", "axis": "y" if spec["type"] == "xy" else None, "ref": "data", "rel": False})
-        base[1]["corr"] = rng.choice([0.0, 0.3, 0.6])
-        base[1]["name"] = "n0"
-        srcs.append(base)
-        if rng.random() < 0.4:
-            op = fitlib.gen_source(rng, spec, 1, allow_model=False, force={"ref": "data"})
-            op[1]["name"] = "n1"
-            srcs.append(op)
-        out["sources"] = srcs
-        return out
 
     # ------------------------------------------------------------------ shrinking / fingerprints
     def simplify(self, op):
@@ -341,51 +307,6 @@ class FitHistMachine(Machine):
         if k == "clock":
             if with_fits:
                 world.clock.jumps = list(op[1])
-            return
-        if k == "set_data":
-            a = op[1]
-            t = sim.spec["type"]
-            if any(w == "model" for w in sim.src_where):
-                raise NotApplicable("model sources present")
-            if t == "xy":
-                if len(a["x"]) != len(a["y"]) or len(a["x"]) != len(sim.ref.d):
-                    raise NotApplicable("size")
-                newdata = [list(a["x"]), list(a["y"])]
-                sim.ref.d = np.array(a["y"], dtype=float)
-                xs = np.array(a["x"], dtype=float)
-                sim.ref.x = xs
-                mk = sim.spec["model"]
-                sim.ref.model = lambda p, xs=xs, mk=mk: np.asarray(fitlib._pure_xy(mk)(xs, *p), dtype=float)
-            elif t == "indexed":
-                newdata = list(a["d"])
-                sim.ref.d = np.array(a["d"], dtype=float)
-            elif t == "hist":
-                K = fitlib.kf()
-                e = sim.ref.edges
-                fit.data = K.HistContainer(bin_edges=list(e), fill_data=list(a["entries"]))
-                cnt = np.zeros(len(e) - 1)
-                for v in a["entries"]:
-                    if e[0] <= v < e[-1]:
-                        cnt[int(np.searchsorted(e, v, side="right")) - 1] += 1
-                sim.ref.d = cnt
-                sim.ref.n_entries = float(len(a["entries"]))
-            else:
-                fit.data = list(a["d"])
-                s = np.array(a["d"], dtype=float)
-                sim.ref.d = s
-                mk = sim.spec["model"]
-                sim.ref.model = lambda p, s=s, mk=mk: np.asarray(fitlib._pure_pdf(mk)(s, *p), dtype=float)
-            # the new container carries only its own sources; kafe2 builds a new parametric model as well
-            sim.ref.sources = []
-            sim.names = []
-            sim.src_where = []
-            if t in ("xy", "indexed"):
-                if a.get("sources"):
-                    K = fitlib.kf()
-                    cont = K.XYContainer(newdata[0], newdata[1]) if t == "xy" else K.IndexedContainer(newdata)
-                    sim._pre(cont, a["sources"])
-                    newdata = cont
-                fit.data = newdata
             return
         if k == "set_par_errors":
             if len(op[1]) != sim.ref.n_par:
